@@ -36,6 +36,7 @@ def acc_piece(R, h, unit, lo, hi, bits, tol_ulp, tag, opts_extra=None):
         c = R.call(h, unit, [x], opts=E.Opts(mul_ovf="bits" if ab else "exact"))
         goal = z3.And(O.within(enc, x, c.out, z3.BitVecVal(T, W), W), c.out >= 0)
         if unit == "kernel":
+            goal = z3.And(goal, z3.Implies(x >= val(1), c.out >= val(1)))     # atan q > 0 for q > 0 (contract of atan2's stub)
             # used by atan/bounded: on the arguments segment 5 can produce the kernel stays below pi/2 - atan(39/16)
             goal = z3.And(goal, z3.Implies(x <= val(ZMAX), c.out <= val(KMAX)))
         return Ob("%s/acc/[%d,%d]" % (tag, lo, hi), "verify", ins, [c], dom, goal, also_ub=True, portfolio=("z3",),
@@ -224,9 +225,9 @@ def monotone_and_atan2(R, h, hk, oi, kstub_factory, PIDIV2, kp, dp):
         q = args[0]
         cap.append((ctx.cond, q))
         r = ATANF(q)
-        # contract of atan proved above: odd, 0 <= atan(q) <= fixpidiv2 for q >= 0
-        ctx.assume(z3.And(z3.Implies(q >= 0, z3.And(r >= 0, r <= val(PIDIV2))),
-                          z3.Implies(z3.And(q < 0, q != val(INT64_MIN)), z3.And(r <= 0, r >= val(-PIDIV2))),
+        # contract of atan proved above: odd, 0 < atan(q) <= fixpidiv2 for q > 0, atan 0 = 0
+        ctx.assume(z3.And(z3.Implies(q > 0, z3.And(r > 0, r <= val(PIDIV2))),
+                          z3.Implies(z3.And(q < 0, q != val(INT64_MIN)), z3.And(r < 0, r >= val(-PIDIV2))),
                           z3.Implies(q == 0, r == 0)))
         return r
     o2 = E.Opts(stubs={ATAN_SYM: astub}, div_spec=True, mul_uf=True)
